@@ -1,6 +1,6 @@
 // C10 — blocked peers, addresses and subnets never obtain a connection; rules persist.
 //
-// Two strata, drawn first:
+// Three strata, drawn first (hooks-direct | full-stack over TCP | full-stack with QUIC next to TCP):
 //
 //	full-stack   three REAL nodes on simnet (swarm, TCP dial path, gated listener, upgrader, Noise, yamux):
 //	             G owns a real conngater.BasicConnectionGater on a simdisk.Disk; P and Q (no gater) sit on IP
@@ -12,6 +12,16 @@
 //	             nobody listens on; P/Q dial G; every dial is triggered either by Swarm.DialPeer or by
 //	             Swarm.NewStream, which dials when it finds no connection). A restart closes G and builds a new node with a NEW gater
 //	             opened on the same Disk.
+//	full-stack-quic the same histories with every node listening on TCP AND QUIC (real p2p/transport/quic + quicreuse +
+//	             quic-go, instrumented, over simnet's UDP model; crypto/rand pinned by simrand). Per dial the dialler
+//	             knows the QUIC addresses only, both (the swarm's dial ranker races them) or TCP only; G's QUIC forms
+//	             are /ip4|/ip6/…/udp/4001/quic-v1, /ip6/::ffff:a.b.c.d/udp/… (never connectable: Go refuses "udp6" for
+//	             a mapped address — the gater is still asked first) and /dns4|/dns6 forms, plus QUIC decoys. Here the
+//	             transport calls the gater itself: InterceptAccept + InterceptSecured in listener.Accept (after the
+//	             QUIC handshake: a QUIC connection arrives secured, there is no accept-time raw connection to close),
+//	             InterceptSecured(outbound) in transport.dial. In 2/5 of these runs datagrams are lost (<= 30 %),
+//	             duplicated and delayed/reordered; the faults stop before the final round (everything closed on both
+//	             sides + 45 virtual seconds > QUIC idle timeout), and only rounds without faults expect liveness.
 //	hooks-direct the gater alone (same histories, faults, restarts); after every call every Intercept* hook is
 //	             asked about every pool IP in every textual form (/ip4, /ip6, /ip6/::ffff:…, /ip6zone, quic-v1,
 //	             webtransport, webrtc-direct, ws, bare IP) and about forms without IP component.
@@ -22,11 +32,23 @@
 //
 // Oracles (all for G, the owner of the gater; the remote may see a connection for an instant):
 //
-//	admitted-*       a Connected notification on G / a new ConnsToPeer entry in a dial round whose remote matches
-//	                 a rule that was definitely in force during the whole round (rules only change between rounds,
-//	                 at quiescence; connections that existed before the round are exempt: documented to survive)
+//	admitted-*       a Connected notification on G (judged when it arrives) / a ConnsToPeer entry nobody was notified
+//	                 of, whose remote matches a rule that is definitely in force (rules only change at quiescent
+//	                 instants between rounds, and gating hooks -> addConn -> notification of an inbound connection
+//	                 needs no virtual time, so "in force now" = "in force when it had to pass"; connections that
+//	                 existed before are exempt: documented to survive). QUIC connections get ".../quic" classes.
 //	dialed-*         a simnet dial attempt from G's IP to an address matching a definitely blocked addr/subnet, or
-//	                 to an address of a definitely blocked peer
+//	                 to an address of a definitely blocked peer; QUIC (dialed-*/quic): a client Initial packet from G
+//	                 to such an address seen on the UDP wire (an Initial whose destination connection id the
+//	                 destination never announced as its source connection id — see udpDial; traffic of connections
+//	                 that exist already and G's answers as a server are not attempts)
+//	hook-not-consulted  a connection is admitted on G although the gater was never asked, since this node started,
+//	                 at one of the call sites the ConnectionGater interface documents for it (outbound: PeerDial,
+//	                 AddrDial for that transport+IP, Secured(outbound) for that peer+transport+IP, Upgraded for that
+//	                 very connection; inbound: Accept, Secured(inbound), Upgraded). From the interface documentation
+//	                 and the quantifier's "each transport's own gating call sites". BasicConnectionGater answers
+//	                 Secured(outbound) with true always, so this is the only oracle that can see a transport whose
+//	                 dial path does not ask.
 //	inbound-*        raw listener-end connection from a definitely blocked IP not closed, or any byte read/written
 //	                 on it, at the first quiescent instant after the dials returned (= closed at accept, no
 //	                 handshake); from a definitely blocked peer: not closed at that instant (no time has passed, so
@@ -48,8 +70,11 @@
 // component (only: no panic), about the error value of a refused dial, about the remote side. A failed
 // connection although no rule matches is harness trouble unless a hook refused.
 //
-// Not simulated (gap): the QUIC / WebTransport / WebRTC listeners' own InterceptAccept / InterceptSecured call
-// sites; their address forms reach the real gater only in the hooks-direct stratum. An inbound remote multiaddr
+// Not simulated (gap): the WebTransport / WebRTC / websocket listeners' own InterceptAccept / InterceptSecured call
+// sites; their address forms reach the real gater only in the hooks-direct stratum. (QUIC's are exercised since the
+// full-stack-quic stratum exists.) For QUIC "closed at accept" has no wire-level oracle: the statement's accept is
+// the transport's Accept, which quic-go reaches after the handshake; asserted is that such a connection is never
+// admitted (no notification, no ConnsToPeer entry, hence no stream) and that the hooks were asked. An inbound remote multiaddr
 // in /ip6/::ffff:a.b.c.d form cannot occur over TCP (Go's net.TCPAddr folds it to IPv4; a host configured with
 // the mapped spelling as source IP is still seen as /ip4 by G — exercised as "mapped-source"), so that form is
 // covered inbound by hooks-direct only and outbound by both strata.
@@ -84,6 +109,15 @@
 //	gated listener: InterceptAccept not consulted                        inbound-not-closed-at-accept/addr, admitted-blocked-addr/inbound
 //	upgrader: InterceptSecured not consulted                             inbound-blocked-peer-not-closed-after-handshake, admitted-blocked-peer/inbound
 //
+// QUIC stratum (same procedure, overlay copies of p2p/transport/quic/{listener,transport}.go; seconds to detect):
+//
+//	listener.go: InterceptSecured dropped from the inbound check           hook-not-consulted/InterceptSecured/inbound/quic (first connection), admitted-blocked-peer/inbound/quic/{live,restored}
+//	listener.go: InterceptSecured inverted                                  admitted-blocked-peer/inbound/quic
+//	listener.go: InterceptAccept dropped                                    hook-not-consulted/InterceptAccept/inbound/quic, admitted-blocked-{addr,subnet}/inbound/quic/{ip4,ip6}/{live,restored}
+//	listener.go: gated connection not closed / handed to the swarm anyway   admitted-blocked-peer/inbound/quic
+//	transport.go dial path: InterceptSecured(outbound) dropped              hook-not-consulted/InterceptSecured/outbound/quic ONLY (invisible in behaviour with this gater, see above)
+//	swarm: InterceptAddrDial / InterceptPeerDial not consulted (C10_ONLY=quic)  dialed-blocked-{addr,subnet,peer}/quic, admitted-…/outbound/quic, hook-not-consulted/Intercept{Addr,Peer}Dial/outbound/{tcp,quic}
+//
 // Missed: none of those tried. (A first version of the DNS mutation — gating before resolution — broke
 // connectivity altogether and was reported as harness trouble, not as a violation; it was replaced by the one above.)
 package c10
@@ -112,10 +146,12 @@ import (
 	"verifsim/simdisk"
 	"verifsim/simhost"
 	"verifsim/simnet"
+	"verifsim/simrand"
 	"verifsim/simrt"
 )
 
-// forceStratum: development knob for sensitivity runs (C10_ONLY=full|hooks restricts the sweep to one stratum).
+// forceStratum: development knob for sensitivity runs (C10_ONLY=full|hooks|quic restricts the sweep to one stratum;
+// C10_DEBUG=1 prints the decoded trace of a run that ends in trouble or a violation).
 // Unset in every registered run; the stratum draw is still consumed, so tapes stay comparable.
 var forceStratum = func() int {
 	switch os.Getenv("C10_ONLY") {
@@ -123,6 +159,8 @@ var forceStratum = func() int {
 		return 1
 	case "hooks":
 		return 0
+	case "quic":
+		return 2
 	}
 	return -1
 }()
@@ -560,8 +598,9 @@ type host struct {
 	ip     string // canonical text
 	srcIP  string // what simhost gets (may be the IPv4-mapped spelling)
 	v6     bool
-	decoy  string // an address of the pool nobody listens on, attributed to this peer
-	forms  []string
+	decoy  string   // an address of the pool nobody listens on, attributed to this peer
+	forms  []string // TCP address forms G may know
+	qforms []string // QUIC address forms (QUIC stratum)
 	node   *simhost.Node
 	hadDef bool // some rule definitely matched this host in an earlier round
 }
@@ -585,6 +624,77 @@ type fullStack struct {
 	refusedNonMatching bool
 	gClosed            bool
 	secu               string
+
+	// QUIC stratum
+	quic      bool
+	udpCfg    simnet.UDPConfig
+	faultsOn  bool            // drawn UDP faults are in force
+	calls     map[string]bool // hook call sites reached in this incarnation of G (see noteCall)
+	upgraded  map[network.Conn]bool
+	everSeen  map[network.Conn]bool // connections G was notified of
+	scidFrom  map[string]bool       // "<remote ip>|<scid>" of every long-header packet sent to G
+	udpDials  []udpDial             // client Initial packets sent by G = QUIC dial attempts
+	udpJudged int
+}
+
+// udpDial is one QUIC connection attempt of G seen on the wire: an Initial packet from G's IP whose destination
+// connection id was NOT announced before as source connection id by the destination. (RFC 9000 7.2: a server's
+// packets carry the client's source connection id as destination; a client's first flight carries a fresh random
+// one. The filter sees datagrams when they are sent, so a server's answer always comes after the packet it
+// answers.) Short-header traffic of connections that exist already is not a dial attempt.
+type udpDial struct {
+	to    net.IP
+	stamp uint64
+}
+
+// quicLongHeader parses the version-independent part of a long-header packet (RFC 8999) and tells whether it is
+// a QUIC v1 Initial.
+func quicLongHeader(b []byte) (dcid, scid []byte, initial, ok bool) {
+	if len(b) < 7 || b[0]&0x80 == 0 {
+		return nil, nil, false, false
+	}
+	ver := uint32(b[1])<<24 | uint32(b[2])<<16 | uint32(b[3])<<8 | uint32(b[4])
+	dl := int(b[5])
+	if len(b) < 7+dl {
+		return nil, nil, false, false
+	}
+	dcid = b[6 : 6+dl]
+	sl := int(b[6+dl])
+	if len(b) < 7+dl+sl {
+		return nil, nil, false, false
+	}
+	scid = b[7+dl : 7+dl+sl]
+	return dcid, scid, ver == 1 && b[0]&0x30 == 0, true
+}
+
+func (fs *fullStack) udpFilter(from, to *net.UDPAddr, b []byte) simnet.UDPVerdict {
+	dcid, scid, initial, ok := quicLongHeader(b)
+	if !ok {
+		return simnet.UDPPass
+	}
+	fs.mu.Lock()
+	defer fs.mu.Unlock()
+	switch {
+	case normIP(to.IP) == gIP && normIP(from.IP) != gIP:
+		fs.scidFrom[normIP(from.IP)+"|"+string(scid)] = true
+	case normIP(from.IP) == gIP && initial && !fs.scidFrom[normIP(to.IP)+"|"+string(dcid)]:
+		fs.udpDials = append(fs.udpDials, udpDial{to: append(net.IP(nil), to.IP...), stamp: simrt.Stamp()})
+	}
+	return simnet.UDPPass
+}
+
+func tptOf(a ma.Multiaddr) string {
+	if a != nil && strings.Contains(a.String(), "/quic-v1") {
+		return "quic"
+	}
+	return "tcp"
+}
+
+// noteCall records that a gating call site was reached (for the hook-not-consulted oracle).
+func (fs *fullStack) noteCall(key string) {
+	fs.mu.Lock()
+	fs.calls[key] = true
+	fs.mu.Unlock()
 }
 
 // fakeDNS resolves x.test names to the host addresses: dns4 -> /ip4 (v4 hosts), dns6 -> /ip6 (for a v4 host the
@@ -642,6 +752,7 @@ func (r *recGater) hostByID(p peer.ID) string { return r.fs.names[p] }
 func (r *recGater) InterceptPeerDial(p peer.ID) bool {
 	fs := r.fs
 	allow := fs.gater.InterceptPeerDial(p)
+	fs.noteCall("PeerDial|" + r.hostByID(p))
 	if !allow {
 		fs.probe("refused-PeerDial")
 	}
@@ -654,9 +765,15 @@ func (r *recGater) InterceptPeerDial(p peer.ID) bool {
 func (r *recGater) InterceptAddrDial(p peer.ID, a ma.Multiaddr) bool {
 	fs := r.fs
 	allow := fs.gater.InterceptAddrDial(p, a)
+	if ip := ipOf(a); ip != nil {
+		fs.noteCall("AddrDial|" + r.hostByID(p) + "|" + tptOf(a) + "|" + normIP(ip))
+	}
 	if !allow {
 		fs.probe("refused-AddrDial")
 		fs.probe("refused-AddrDial-" + famTag(a))
+		if tptOf(a) == "quic" {
+			fs.probe("refused-AddrDial-quic")
+		}
 	}
 	if n := r.hostByID(p); n != "" {
 		// the peer aspect is not this hook's business: only "no possibly matching rule at all" involves it
@@ -669,10 +786,16 @@ func (r *recGater) InterceptAddrDial(p peer.ID, a ma.Multiaddr) bool {
 func (r *recGater) InterceptAccept(c network.ConnMultiaddrs) bool {
 	fs := r.fs
 	allow := fs.gater.InterceptAccept(c)
+	a := c.RemoteMultiaddr()
+	if ip := ipOf(a); ip != nil {
+		fs.noteCall("Accept|" + tptOf(a) + "|" + normIP(ip))
+	}
 	if !allow {
 		fs.probe("refused-Accept")
+		if tptOf(a) == "quic" {
+			fs.probe("refused-Accept-quic")
+		}
 	}
-	a := c.RemoteMultiaddr()
 	fs.liveJudge("InterceptAccept", "addr", allow, verdict{}, fs.m.ipVerdict(ipOf(a)), famTag(a), fmt.Sprintf("inbound from %s", stripPort(a)))
 	return allow
 }
@@ -685,10 +808,20 @@ func (r *recGater) InterceptSecured(d network.Direction, p peer.ID, c network.Co
 		return allow
 	}
 	pv := fs.m.peerVerdict(n)
-	iv := fs.m.ipVerdict(ipOf(c.RemoteMultiaddr()))
+	ra := c.RemoteMultiaddr()
+	iv := fs.m.ipVerdict(ipOf(ra))
+	if ip := ipOf(ra); ip != nil {
+		fs.noteCall("Secured|" + strings.ToLower(d.String()) + "|" + n + "|" + tptOf(ra) + "|" + normIP(ip))
+	}
+	if tptOf(ra) == "quic" {
+		fs.probe("quic-Secured-" + strings.ToLower(d.String()))
+	}
 	if d == network.DirInbound {
 		if !allow {
 			fs.probe("refused-Secured-inbound")
+			if tptOf(ra) == "quic" {
+				fs.probe("refused-Secured-inbound-quic")
+			}
 		}
 		fs.liveJudge("InterceptSecured", "peer", allow, pv, verdict{poss: iv.poss}, "", "inbound peer "+n)
 	} else {
@@ -700,6 +833,9 @@ func (r *recGater) InterceptSecured(d network.Direction, p peer.ID, c network.Co
 func (r *recGater) InterceptUpgraded(c network.Conn) (bool, control.DisconnectReason) {
 	fs := r.fs
 	allow, reason := fs.gater.InterceptUpgraded(c)
+	fs.mu.Lock()
+	fs.upgraded[c] = true
+	fs.mu.Unlock()
 	if n := r.hostByID(c.RemotePeer()); n != "" {
 		pv := fs.m.peerVerdict(n)
 		iv := fs.m.ipVerdict(ipOf(c.RemoteMultiaddr()))
@@ -726,7 +862,11 @@ func stripPort(a ma.Multiaddr) string {
 }
 
 func (fs *fullStack) startG() bool {
-	nd, err := simhost.New(fs.n, simhost.Opts{Key: simhost.DetKey(1), IP: gIP, Port: tcpPort, Security: fs.secu, Gater: &recGater{fs: fs},
+	fs.mu.Lock()
+	fs.calls = map[string]bool{}
+	fs.upgraded = map[network.Conn]bool{}
+	fs.mu.Unlock()
+	nd, err := simhost.New(fs.n, simhost.Opts{Key: simhost.DetKey(1), IP: gIP, Port: tcpPort, Security: fs.secu, Gater: &recGater{fs: fs}, QUIC: fs.quic,
 		SwarmOpts: []swarm.Option{swarm.WithMultiaddrResolver(fs.dns)}})
 	if err != nil {
 		fs.trouble("node G: %v", err)
@@ -739,9 +879,68 @@ func (fs *fullStack) startG() bool {
 		ev := connEvent{stamp: simrt.Stamp(), conn: c, peer: c.RemotePeer(), addr: c.RemoteMultiaddr(), dir: c.Stat().Direction}
 		fs.mu.Lock()
 		fs.events = append(fs.events, ev)
+		fs.everSeen[c] = true
 		fs.mu.Unlock()
+		fs.judgeAdmitted(ev)
 	}})
 	return true
+}
+
+// judgeAdmitted: a connection is being admitted to G's swarm (Connected notification, or a ConnsToPeer entry
+// nobody was notified of). The rule set changes only at quiescent instants and the chain "gating hooks ->
+// addConn -> notification" of an inbound connection needs no virtual time, so the rules in force now are the rules
+// the connection had to pass; an outbound connection is admitted while its dial call runs, i.e. inside a round.
+func (fs *fullStack) judgeAdmitted(e connEvent) {
+	n := fs.names[e.peer]
+	how := "Connected notification"
+	if e.stamp == 0 {
+		how = "ConnsToPeer entry (no notification seen)"
+	}
+	dir := strings.ToLower(e.dir.String())
+	tpt := tptOf(e.addr)
+	dirT := dir
+	if tpt == "quic" {
+		dirT = dir + "/quic"
+		fs.probe("quic-conn-admitted-" + dir)
+	}
+	if v := fs.m.peerVerdict(n); v.def {
+		fs.violate("C10/admitted-blocked-peer/"+dirT+"/"+fs.phase(v.key), "%s on G for a NEW %s %s connection with blocked peer %s (%s); rules change only at quiescent instants between rounds", how, dir, tpt, n, stripPort(e.addr))
+	}
+	ip := ipOf(e.addr)
+	if v := fs.m.ipVerdict(ip); v.def {
+		fs.violate("C10/admitted-blocked-"+kindName[v.kind]+"/"+dirT+"/"+famTag(e.addr)+"/"+fs.phase(v.key), "%s on G for a NEW %s %s connection with %s at %s, which matches blocked %s", how, dir, tpt, n, stripPort(e.addr), v.key)
+	}
+	// Every admitted connection must have passed the call sites the ConnectionGater interface documents
+	// (core/connmgr/gater.go): outbound InterceptPeerDial, InterceptAddrDial, InterceptSecured, InterceptUpgraded;
+	// inbound InterceptAccept, InterceptSecured, InterceptUpgraded — "for every transport ... each transport's own
+	// gating call sites". Existence since this incarnation of G started is enough (weak, but a transport that never
+	// asks is caught by its first connection). BasicConnectionGater answers InterceptSecured(outbound) with true
+	// always, so only this oracle can see a transport that does not ask on its dial path.
+	if n == "" || ip == nil || e.stamp == 0 {
+		return
+	}
+	var want []string
+	if e.dir == network.DirOutbound {
+		want = []string{"PeerDial|" + n, "AddrDial|" + n + "|" + tpt + "|" + normIP(ip), "Secured|outbound|" + n + "|" + tpt + "|" + normIP(ip)}
+	} else {
+		want = []string{"Accept|" + tpt + "|" + normIP(ip), "Secured|inbound|" + n + "|" + tpt + "|" + normIP(ip)}
+	}
+	fs.mu.Lock()
+	var missing []string
+	for _, k := range want {
+		if !fs.calls[k] {
+			missing = append(missing, k)
+		}
+	}
+	if !fs.upgraded[e.conn] {
+		missing = append(missing, "Upgraded")
+	}
+	fs.mu.Unlock()
+	fs.bump()
+	for _, k := range missing {
+		hook := "Intercept" + strings.SplitN(k, "|", 2)[0]
+		fs.violate("C10/hook-not-consulted/"+hook+"/"+dir+"/"+tpt, "G admitted a %s %s connection with %s (%s) but the gater was never asked %s since this node started (call sites reached: %d)", dir, tpt, n, stripPort(e.addr), k, len(want))
+	}
 }
 
 func (fs *fullStack) closeG() {
@@ -790,6 +989,7 @@ type dialTask struct {
 }
 
 var triggerName = []string{"DialPeer", "NewStream"}
+var knowName = []string{"quic-only", "tcp+quic", "tcp-only"}
 
 func short(err error) string {
 	if err == nil {
@@ -807,20 +1007,48 @@ func (fs *fullStack) round() {
 	mask := 1 + fs.g.Int(15) // bit0 G->P, bit1 P->G, bit2 G->Q, bit3 Q->G
 	hosts := []*host{fs.P, fs.Q}
 	involved := map[*host]bool{}
+	// expectLive: some dial of the round between G and the host uses an address a connection can be made through.
+	// /ip6/::ffff:a.b.c.d/udp/…/quic-v1 is not one: the QUIC transport resolves it with network "udp6", which Go
+	// refuses for an IPv4-mapped address ("no suitable address found") — the gater is still asked about it first.
+	expectLive := map[*host]bool{}
 	var tasks []*dialTask
 	var desc []string
 	for i, h := range hosts {
 		if mask&(1<<(2*i)) != 0 {
-			fm := fs.g.Int(1 << len(h.forms))
-			if fm == 0 {
-				fm = 1
+			know := 2 // 0 QUIC addresses only, 1 both (the dial ranker races them), 2 TCP only
+			if fs.quic {
+				know = fs.g.Weighted(3, 3, 1)
+				fs.probe("G-knows-" + knowName[know])
+			}
+			fm := 0
+			if know != 0 {
+				fm = fs.g.Int(1 << len(h.forms))
+				if fm == 0 {
+					fm = 1
+				}
 			}
 			var addrs []ma.Multiaddr
 			var names []string
+			if know != 2 {
+				qm := fs.g.Int(1 << len(h.qforms))
+				if qm == 0 {
+					qm = 1
+				}
+				for k, f := range h.qforms {
+					if qm&(1<<k) != 0 {
+						addrs = append(addrs, ma.StringCast(f))
+						names = append(names, f)
+						if !strings.HasPrefix(f, "/ip6/::ffff:") {
+							expectLive[h] = true
+						}
+					}
+				}
+			}
 			for k, f := range h.forms {
 				if fm&(1<<k) != 0 {
 					addrs = append(addrs, ma.StringCast(f))
 					names = append(names, f)
+					expectLive[h] = true
 					switch {
 					case strings.HasPrefix(f, "/dns"):
 						fs.probe("dial-form-dns")
@@ -835,6 +1063,9 @@ func (fs *fullStack) round() {
 					fam = "ip6"
 				}
 				d := fmt.Sprintf("/%s/%s/tcp/%d", fam, h.decoy, tcpPort)
+				if know == 0 || (know == 1 && fs.g.Bool()) {
+					d = fmt.Sprintf("/%s/%s/udp/%d/quic-v1", fam, h.decoy, tcpPort)
+				}
 				addrs = append(addrs, ma.StringCast(d))
 				names = append(names, d+"(decoy)")
 				fs.probe("dial-with-decoy")
@@ -849,9 +1080,25 @@ func (fs *fullStack) round() {
 		}
 		if mask&(1<<(2*i+1)) != 0 {
 			tr := fs.g.Int(2)
+			via := "tcp"
+			if fs.quic {
+				know := fs.g.Weighted(3, 3, 1)
+				via = knowName[know]
+				fs.probe("remote-knows-" + via)
+				ga := []ma.Multiaddr{fs.G.QAddr, fs.G.Addr}
+				switch know {
+				case 0:
+					ga = ga[:1]
+				case 2:
+					ga = ga[1:]
+				}
+				h.node.PS.ClearAddrs(fs.G.ID)
+				h.node.PS.AddAddrs(fs.G.ID, ga, peerstore.PermanentAddrTTL)
+			}
 			tasks = append(tasks, &dialTask{label: h.name + "->G", from: h.name, to: "G", trigger: tr})
-			desc = append(desc, fmt.Sprintf("%s->G by %s", h.name, triggerName[tr]))
+			desc = append(desc, fmt.Sprintf("%s->G by %s via %s", h.name, triggerName[tr], via))
 			involved[h] = true
+			expectLive[h] = true
 		}
 	}
 	// state before the round
@@ -869,6 +1116,7 @@ func (fs *fullStack) round() {
 	conns0 := len(fs.n.Conns())
 	dials0 := len(fs.n.Dials())
 	fs.refusedNonMatching = false
+	faulty := fs.faultsOn
 	pv := map[*host]verdict{}
 	iv := map[*host]verdict{}
 	for _, h := range hosts {
@@ -961,34 +1209,38 @@ func (fs *fullStack) round() {
 			fs.violate("C10/dialed-blocked-peer/"+fs.phase(pv[h].key), "G made a transport dial attempt to %s, an address of blocked peer %s (outcome %s)", d.To, h.name, d.Outcome)
 		}
 	}
-	// ---- admitted connections on G --------------------------------------------------------------------------
+	// QUIC: connection attempts of G seen on the wire (client Initial packets) since the last check
 	fs.mu.Lock()
-	evs := append([]connEvent(nil), fs.events[ev0:]...)
+	uds := append([]udpDial(nil), fs.udpDials[fs.udpJudged:]...)
+	fs.udpJudged = len(fs.udpDials)
 	fs.mu.Unlock()
-	seen := map[network.Conn]bool{}
-	for _, e := range evs {
-		seen[e.conn] = true
+	flagged := map[string]bool{}
+	for _, d := range uds {
+		fs.probe("quic-dial-attempt-seen")
+		if flagged[normIP(d.to)] {
+			continue // retransmissions of the same attempt
+		}
+		if v := fs.m.ipVerdict(d.to); v.def {
+			flagged[normIP(d.to)] = true
+			fs.violate("C10/dialed-blocked-"+kindName[v.kind]+"/quic/"+fs.phase(v.key), "G sent a QUIC client Initial to %s (a connection attempt) although %s is blocked; round: %s", normIP(d.to), v.key, strings.Join(desc, ", "))
+		}
+		if h := fs.hostByIP(d.to); h != nil && pv[h].def {
+			flagged[normIP(d.to)] = true
+			fs.violate("C10/dialed-blocked-peer/quic/"+fs.phase(pv[h].key), "G sent a QUIC client Initial to %s, an address of blocked peer %s; round: %s", normIP(d.to), h.name, strings.Join(desc, ", "))
+		}
 	}
+	// ---- admitted connections on G: judged when the notification arrives (judgeAdmitted); here only entries
+	// of ConnsToPeer that nobody was notified of ---------------------------------------------------------------
+	_ = ev0
 	for _, h := range hosts {
 		for _, c := range fs.G.Swarm.ConnsToPeer(h.node.ID) {
-			if !survivors[c] && !seen[c] {
-				seen[c] = true
-				evs = append(evs, connEvent{conn: c, peer: c.RemotePeer(), addr: c.RemoteMultiaddr(), dir: c.Stat().Direction})
+			fs.mu.Lock()
+			known := fs.everSeen[c]
+			fs.everSeen[c] = true
+			fs.mu.Unlock()
+			if !survivors[c] && !known {
+				fs.judgeAdmitted(connEvent{conn: c, peer: c.RemotePeer(), addr: c.RemoteMultiaddr(), dir: c.Stat().Direction})
 			}
-		}
-	}
-	for _, e := range evs {
-		n := fs.names[e.peer]
-		how := "Connected notification"
-		if e.stamp == 0 {
-			how = "ConnsToPeer entry (no notification seen)"
-		}
-		dir := strings.ToLower(e.dir.String())
-		if v := fs.m.peerVerdict(n); v.def {
-			fs.violate("C10/admitted-blocked-peer/"+dir+"/"+fs.phase(v.key), "%s on G for a NEW %s connection with blocked peer %s (%s); rules did not change during the round", how, dir, n, stripPort(e.addr))
-		}
-		if v := fs.m.ipVerdict(ipOf(e.addr)); v.def {
-			fs.violate("C10/admitted-blocked-"+kindName[v.kind]+"/"+dir+"/"+famTag(e.addr)+"/"+fs.phase(v.key), "%s on G for a NEW %s connection with %s at %s, which matches blocked %s", how, dir, n, stripPort(e.addr), v.key)
 		}
 	}
 	// ---- bookkeeping, liveness, signature ----------------------------------------------------------------------
@@ -1016,11 +1268,13 @@ func (fs *fullStack) round() {
 				fs.probe("survivor-conn-while-blocked")
 			}
 		}
-		if !pv[h].poss && !iv[h].poss {
+		if !pv[h].poss && !iv[h].poss && expectLive[h] {
 			if fs.ackedBlock > 0 {
 				fs.bump()
 			}
-			if nc == 0 {
+			if nc == 0 && faulty {
+				fs.probe("not-connected-under-udp-faults")
+			} else if nc == 0 {
 				if !fs.refusedNonMatching {
 					var errs []string
 					for _, tk := range tasks {
@@ -1063,6 +1317,26 @@ func (fs *fullStack) byName(n string) *host {
 
 func (fs *fullStack) runFullStack(mode simnet.LinkMode, tapeS *simrt.Stream) {
 	fs.n = simnet.New(tapeS, simnet.Config{Mode: mode})
+	fs.everSeen = map[network.Conn]bool{}
+	fs.scidFrom = map[string]bool{}
+	if fs.quic {
+		// UDP wire: in part of the runs datagrams are lost (<= 30 %), duplicated and delayed (= reordered)
+		if fs.g.Weighted(3, 2) == 1 {
+			fs.udpCfg = simnet.UDPConfig{
+				DropPermille: []int{0, 30, 120, 300}[fs.g.Int(4)],
+				DupPermille:  []int{0, 50}[fs.g.Int(2)],
+				Latencies:    [][]time.Duration{nil, {0, time.Millisecond, 15 * time.Millisecond}, {0, 5 * time.Millisecond, 80 * time.Millisecond, 400 * time.Millisecond}}[fs.g.Int(3)],
+			}
+			if fs.udpCfg.DropPermille > 0 || fs.udpCfg.DupPermille > 0 || len(fs.udpCfg.Latencies) > 0 {
+				fs.faultsOn = true
+				fs.n.SetUDP(fs.udpCfg)
+				fs.probe("udp-faults-on")
+			}
+		}
+		fs.n.SetUDPFilter(fs.udpFilter)
+		fs.logf("QUIC stratum: every node listens on TCP and QUIC; udp faults: drop %d permille, dup %d permille, %d latencies", fs.udpCfg.DropPermille, fs.udpCfg.DupPermille, len(fs.udpCfg.Latencies))
+		fs.sig = append(fs.sig, fmt.Sprintf("udp=%d/%d/%d", fs.udpCfg.DropPermille, fs.udpCfg.DupPermille, len(fs.udpCfg.Latencies)))
+	}
 	// hosts
 	pi := fs.g.Int(len(pool))
 	qi := (pi + 1 + fs.g.Int(len(pool)-1)) % len(pool)
@@ -1089,10 +1363,12 @@ func (fs *fullStack) runFullStack(mode simnet.LinkMode, tapeS *simrt.Stream) {
 		low := strings.ToLower(name)
 		if h.v6 {
 			h.forms = []string{"/ip6/" + h.ip + "/tcp/4001", "/dns6/" + low + ".test/tcp/4001", "/dns/" + low + ".test/tcp/4001"}
+			h.qforms = []string{"/ip6/" + h.ip + "/udp/4001/quic-v1", "/dns6/" + low + ".test/udp/4001/quic-v1"}
 			fs.probe("host-ipv6")
 		} else {
 			h.forms = []string{"/ip4/" + h.ip + "/tcp/4001", "/ip6/::ffff:" + h.ip + "/tcp/4001", "/dns4/" + low + ".test/tcp/4001",
 				"/dns6/" + low + ".test/tcp/4001", "/dns/" + low + ".test/tcp/4001"}
+			h.qforms = []string{"/ip4/" + h.ip + "/udp/4001/quic-v1", "/ip6/::ffff:" + h.ip + "/udp/4001/quic-v1", "/dns4/" + low + ".test/udp/4001/quic-v1"}
 			if fs.g.Chance(1, 4) {
 				h.srcIP = "::ffff:" + h.ip
 				fs.probe("mapped-source")
@@ -1140,7 +1416,7 @@ func (fs *fullStack) runFullStack(mode simnet.LinkMode, tapeS *simrt.Stream) {
 	}
 	defer fs.closeG()
 	for _, h := range []*host{fs.P, fs.Q} {
-		nd, err := simhost.New(fs.n, simhost.Opts{Key: simhost.DetKey(h.seed), IP: h.srcIP, Port: tcpPort, Security: fs.secu})
+		nd, err := simhost.New(fs.n, simhost.Opts{Key: simhost.DetKey(h.seed), IP: h.srcIP, Port: tcpPort, Security: fs.secu, QUIC: fs.quic})
 		if err != nil {
 			fs.trouble("node %s: %v", h.name, err)
 			return
@@ -1173,9 +1449,32 @@ func (fs *fullStack) runFullStack(mode simnet.LinkMode, tapeS *simrt.Stream) {
 			}
 		}
 	}
-	// every history ends with a round, so that the last rule change is exercised
+	// every history ends with a round, so that the last rule change is exercised. UDP faults stop before it
+	// (liveness is expected only after faults stopped): everything is closed on both sides and 45 virtual seconds
+	// (> QUIC's 30 s idle timeout) pass, so that no half-dead connection whose CONNECTION_CLOSE was lost is left.
 	if !fs.dead {
+		if fs.faultsOn {
+			fs.faultsOn = false
+			fs.n.SetUDP(simnet.UDPConfig{})
+			for _, h := range []*host{fs.P, fs.Q} {
+				fs.G.Swarm.ClosePeer(h.node.ID)
+				h.node.Swarm.ClosePeer(fs.G.ID)
+			}
+			fs.settle(45 * time.Second)
+			for _, h := range []*host{fs.P, fs.Q} {
+				h.node.Swarm.Backoff().Clear(fs.G.ID)
+				fs.G.Swarm.Backoff().Clear(h.node.ID)
+			}
+			fs.probe("udp-faults-stopped-before-final-round")
+		}
 		fs.round()
+	}
+	if fs.quic {
+		for k, v := range fs.n.UDPCounts() {
+			if v > 0 && (k == "udp-lost" || k == "udp-duplicated" || k == "udp-delayed") {
+				fs.o.Fault(k)
+			}
+		}
 	}
 }
 
@@ -1199,7 +1498,9 @@ func run(t *testing.T, tape *simrt.Tape) *common.Outcome {
 	}
 	w.cat = append(w.cat, peerRule("P", w.ids["P"]), peerRule("Q", w.ids["Q"]))
 
-	stratum := g.Weighted(1, 3) // 0 hooks-direct (simplest: the minimiser may move a gater-level failure there), 1 full-stack
+	// 0 hooks-direct (simplest: the minimiser may move a gater-level failure there), 1 full-stack over TCP,
+	// 2 full-stack with QUIC next to TCP (drawn FIRST, so that every other draw of a TCP run keeps its meaning)
+	stratum := g.Weighted(1, 3, 3)
 	if forceStratum >= 0 {
 		stratum = forceStratum
 	}
@@ -1208,14 +1509,22 @@ func run(t *testing.T, tape *simrt.Tape) *common.Outcome {
 	if secu == "tls" {
 		mode = simnet.Whole // TLS message lengths depend on crypto/rand (HARNESS_GUIDE)
 	}
-	stratumName := []string{"hooks-direct", "full-stack"}[stratum]
+	stratumName := []string{"hooks-direct", "full-stack", "full-stack-quic"}[stratum]
 	o.Logf("stratum=%s link=%d security=%s", stratumName, mode, secu)
 	o.Probe("stratum-" + stratumName)
-	if stratum == 1 {
+	if stratum >= 1 {
 		o.Probe("security-" + secu)
 	}
+	maxSteps := 600000
+	if stratum == 2 {
+		// QUIC connection ids, TLS randoms and everything ordered by them must replay: deterministic crypto/rand
+		// for the duration of the run, installed before any node is built (HARNESS_GUIDE, QUIC stratum)
+		restore := simrand.Install(0xC10)
+		defer restore()
+		maxSteps = 6000000
+	}
 
-	res := simrt.Run(t, simrt.Config{MaxSteps: 600000, IdleLimit: 24 * time.Hour, TraceCap: 100000}, tape.S, func() {
+	res := simrt.Run(t, simrt.Config{MaxSteps: maxSteps, IdleLimit: 24 * time.Hour, TraceCap: 100000}, tape.S, func() {
 		cg, err := conngater.NewBasicConnectionGater(w.disk)
 		if err != nil {
 			w.trouble("first open: %v", err)
@@ -1226,7 +1535,7 @@ func run(t *testing.T, tape *simrt.Tape) *common.Outcome {
 		if stratum == 0 {
 			w.runHooksDirect()
 		} else {
-			fs := &fullStack{world: w, secu: secu}
+			fs := &fullStack{world: w, secu: secu, quic: stratum == 2}
 			fs.runFullStack(mode, tape.S)
 		}
 	})
@@ -1239,6 +1548,9 @@ func run(t *testing.T, tape *simrt.Tape) *common.Outcome {
 	}
 	if (res.Stuck || res.StepLimit) && o.Trouble == "" {
 		o.Trouble = fmt.Sprintf("stuck=%v steplimit=%v", res.Stuck, res.StepLimit)
+	}
+	if os.Getenv("C10_DEBUG") != "" && (o.Trouble != "" || len(o.Violations) > 0) {
+		fmt.Fprintf(os.Stderr, "---- trace (trouble: %s)\n%s\n", o.Trouble, strings.Join(o.Trace, "\n"))
 	}
 	return o
 }
